@@ -1,13 +1,19 @@
 //! Defines some carefully crafted locking & syncing primitives
 
+#[cfg(not(feature = "verif"))]
 use std::sync::atomic::{
     AtomicBool,
     Ordering::{Acquire, Release, Relaxed},
 };
+#[cfg(feature = "verif")]
+use std::sync::atomic::Ordering::{Acquire, Release, Relaxed};
+#[cfg(feature = "verif")]
+use crate::verif::AtomicBool;
 
 
 /// Returns when the lock was acquired -- inspired by `parking-lot`
 /// Unlocked: false; locked: true
+#[cfg_attr(feature = "verif", track_caller)]
 #[inline(always)]
 pub fn lock(flag: &AtomicBool) {
     // attempt to lock -- spinning for 10 times, relaxing the CPU between attempts
@@ -26,6 +32,7 @@ pub fn lock(flag: &AtomicBool) {
 }
 
 /// Releases any locks, returning immediately
+#[cfg_attr(feature = "verif", track_caller)]
 #[inline(always)]
 pub fn unlock(flag: &AtomicBool) {
     flag.store(false, Release);
